@@ -94,6 +94,37 @@ func c06Cases() []c06case {
 			}
 		}
 	}
+	// PAN-OS with two vsys that Netspoc manages: the marker of each one counts
+	for _, front := range []string{"drc", "do-approve"} {
+		for _, pending := range []bool{true, false} {
+			for mk := 0; mk < 4; mk++ {
+				sc := baseScenario("PAN-OS", front)
+				m1, m2 := mk&1 == 0, mk&2 == 0 // marker present in vsys1 / vsys2
+				dn := func(present bool) string {
+					if present {
+						return "<display-name>" + netspocBanner + "</display-name>"
+					}
+					return "<display-name>manually configured</display-name>"
+				}
+				rs := func(s ...int) []panRuleT {
+					var l []panRuleT
+					for _, i := range s {
+						l = append(l, panRules[i])
+					}
+					return l
+				}
+				t1, t2 := rs(1, 0, 4), rs(0, 2)
+				d1, d2 := rs(0, 3), rs(2)
+				if !pending {
+					d1, d2 = t1, t2
+				}
+				sc.device = panConfig(panVsysT{name: "vsys1", rules: d1, extra: dn(m1)}, panVsysT{name: "vsys2", rules: d2, extra: dn(m2)})
+				sc.target.Main = panConfig(panVsysT{name: "vsys1", rules: t1}, panVsysT{name: "vsys2", rules: t2})
+				sc.name = fmt.Sprintf("PAN-OS/%s/pending=%v/two-vsys/marker1=%v/marker2=%v", front, pending, m1, m2)
+				l = append(l, c06case{sc: sc, mustBlock: !(m1 && m2), why: "marker"})
+			}
+		}
+	}
 	// PAN-OS high availability
 	for _, front := range []string{"drc", "do-approve"} {
 		for _, pending := range []bool{true, false} {
@@ -234,7 +265,7 @@ func panicKey(msg string) string {
 func init() {
 	registerSharded("C06", c06Worker, func(tier string) core.Meta {
 		return core.Meta{ID: "C06", Level: "fault_enumeration",
-			Rule: "full product, no sampling: device type {ASA, IOS, Linux, PAN-OS} x front end {drc, do-approve approve} x pending changes {some, none} x reported hostname {expected, other, expected with domain suffix} x marker; for expected names {router, fw.dmz, fw-[1]} additionally near-miss hostnames (prefix, suffix, upper case, last character dropped, each regexp/glob metacharacter of the name replaced by another character) with pending changes and marker present; {present, absent, banner text not configured} plus PAN-OS high-availability answers {disabled, A/P active, A/P passive, A/A primary, A/A secondary, malformed, unknown mode}; each combination is one real approve run against the simulator; oracle: where the interlock applies the transcript has no config-changing, save/commit or reload-control line, the device state is unchanged, exit status != 0 and a diagnostic is printed; with no banner text configured the run must end like the marker-present run (same exit status and final device state); good devices must be approved (positive control); non-trivial = combinations where an interlock or the not-configured rule applies",
+			Rule: "full product, no sampling: device type {ASA, IOS, Linux, PAN-OS} x front end {drc, do-approve approve} x pending changes {some, none} x reported hostname {expected, other, expected with domain suffix} x marker; for expected names {router, fw.dmz, fw-[1]} additionally near-miss hostnames (prefix, suffix, upper case, last character dropped, each regexp/glob metacharacter of the name replaced by another character) with pending changes and marker present; {present, absent, banner text not configured} plus PAN-OS devices with two managed vsys x marker present/absent in each; plus PAN-OS high-availability answers {disabled, A/P active, A/P passive, A/A primary, A/A secondary, malformed, unknown mode}; each combination is one real approve run against the simulator; oracle: where the interlock applies the transcript has no config-changing, save/commit or reload-control line, the device state is unchanged, exit status != 0 and a diagnostic is printed; with no banner text configured the run must end like the marker-present run (same exit status and final device state); good devices must be approved (positive control); non-trivial = combinations where an interlock or the not-configured rule applies",
 			Assumptions: []string{"NSX has no hostname, marker or HA notion in the statement and is left out"},
 			Bounds:      map[string]any{"runs": "about 330 combinations, same in both tiers"},
 		}
